@@ -106,6 +106,8 @@ def typed_trees(tier, seed):
         if e[0] == "bin":
             if e[1] in ("/", "%") and e[3][0] == "num" and e[3][1] == 0:
                 return True
+            if e[1] in ("<<", ">>") and e[3][0] in ("num", "char") and not 0 <= e[3][1] < 64:
+                return True      # constant shift counts outside 0..63 are (rightly) compile-time errors
             return zero_div(e[2]) or zero_div(e[3])
         if e[0] in ("not", "neg"):
             return zero_div(e[1])
